@@ -93,6 +93,17 @@ int main(void) {
             sdk_out("UNPACK %ld type=%u", (long)c, c > 0 ? (unsigned)r.fixed_header.control_type : 0);
           free(p);
         }
+      } else if (!strcmp(op, "packhdr") && ops_ntok == 4) { /* control type, flags, remaining length */
+        uint8_t *b = malloc(5); /* exactly the longest header: an overrun is caught */
+        struct mqtt_fixed_header fh;
+        memset(&fh, 0, sizeof(fh));
+        fh.control_type = (enum MQTTControlPacketType)atoi(ops_tok[1]);
+        fh.control_flags = (uint8_t)atoi(ops_tok[2]);
+        fh.remaining_length = (uint32_t)strtoul(ops_tok[3], 0, 10);
+        ssize_t r = mqtt_pack_fixed_header(b, (size_t)1 << 40, &fh); /* the announced room is not the subject here */
+        if (r <= 0) sdk_out("PACKHDR ERR");
+        else { fprintf(stdout, "PACKHDR %ld ", (long)r); sdk_out_hex(b, r); fputc('\n', stdout); }
+        free(b);
       } else if (!strcmp(op, "val") && ops_ntok == 4) {
         char *b = malloc(25); /* exact size: ASan catches an overrun */
         memset(b, 0x7f, 25);
